@@ -67,6 +67,9 @@ func (g *gen) Add(name string, typs []types.Type) (string, error) {
 	if !types.Identical(results.At(results.Len()-1).Type(), types.Typ[types.Bool]) {
 		return "", fmt.Errorf("%s, given function must return bool as last return type. (got %v)", name, results.String())
 	}
+	if sig.Variadic() {
+		return "", fmt.Errorf("%s, the given function is variadic, which is not supported", name)
+	}
 	return g.SetFuncName(name, derive.RenameBlankIdentifier(sig))
 }
 
